@@ -1,13 +1,22 @@
 """Failing-input search for C17 (heavy-hitter / threshold tables) on the real code; model-free."""
 import core
+from corr.bloom import strategy
+
+CLEAR = "<clear>"  # a pseudo key: clear() at this point of the history
 
 
-def _hh(ops, w, d, num):
+def _hh(ops, w, d, num, strat="fnv"):
     from probables import HeavyHitters
 
-    hh = HeavyHitters(num_hitters=num, width=w, depth=d)
+    hh = HeavyHitters(num_hitters=num, width=w, depth=d, hash_function=strategy(strat)[0])
     last = {}
     for step, (key, n) in enumerate(ops):
+        if key == CLEAR:
+            hh.clear()
+            last = {}
+            if hh.heavy_hitters:
+                return f"step {step}: the table is not empty after clear()"
+            continue
         res = hh.add(key, n)
         last[key] = res
         table = hh.heavy_hitters
@@ -23,13 +32,19 @@ def _hh(ops, w, d, num):
     return None
 
 
-def _st(ops, w, d, thr):
+def _st(ops, w, d, thr, strat="fnv"):
     from probables import StreamThreshold
 
-    st = StreamThreshold(threshold=thr, width=w, depth=d)
+    st = StreamThreshold(threshold=thr, width=w, depth=d, hash_function=strategy(strat)[0])
     last = {}
     cnt = {}
     for step, (kind, key, n) in enumerate(ops):
+        if key == CLEAR:
+            st.clear()
+            last, cnt = {}, {}
+            if st.meets_threshold:
+                return f"step {step}: the table is not empty after clear()"
+            continue
         if kind == "rem":
             n = min(n, cnt.get(key, 0))
             if n <= 0:
@@ -62,20 +77,27 @@ def _gen(rng):
     w, d = rng.choice([(1, 1), (1, 2), (2, 2), (2, 1), (3, 2), (3, 3), (5, 4), (50, 5)])
     nkeys = rng.randint(2, 9)
     keys = ["k%d" % i for i in range(nkeys)]
+    if rng.random() < 0.25:
+        keys = ["cl\u00e9-%d" % i if i % 2 else "\U0001f600%d" % i for i in range(nkeys)]
+    strat = rng.choice(["fnv", "fnv", "fnv", "md5", "custom"])
     if rng.random() < 0.5:
         num = rng.choice([1, 2, 3, 5])
         ops = [(rng.choice(keys), rng.choice([1, 1, 2, 3, 7])) for _ in range(rng.randint(1, 30))]
-        return {"structure": "HeavyHitters", "w": w, "d": d, "param": num, "ops": ops}
+        if rng.random() < 0.2:
+            ops.insert(len(ops) // 2, (CLEAR, 0))
+        return {"structure": "HeavyHitters", "w": w, "d": d, "param": num, "ops": ops, "strat": strat}
     thr = rng.choice([1, 2, 3, 5, 8])
     ops = [(rng.choice(["add", "add", "add", "rem"]), rng.choice(keys), rng.choice([1, 1, 2, 3])) for _ in range(rng.randint(1, 30))]
-    return {"structure": "StreamThreshold", "w": w, "d": d, "param": thr, "ops": ops}
+    if rng.random() < 0.2:
+        ops.insert(len(ops) // 2, ("add", CLEAR, 0))
+    return {"structure": "StreamThreshold", "w": w, "d": d, "param": thr, "ops": ops, "strat": strat}
 
 
 def _check(case):
     ops = [tuple(o) for o in case["ops"]]
     if case["structure"] == "HeavyHitters":
-        return _hh(ops, case["w"], case["d"], case["param"])
-    return _st(ops, case["w"], case["d"], case["param"])
+        return _hh(ops, case["w"], case["d"], case["param"], case.get("strat", "fnv"))
+    return _st(ops, case["w"], case["d"], case["param"], case.get("strat", "fnv"))
 
 
 def _shrink(case):
